@@ -257,7 +257,8 @@ func (h *headerField) valid() bool {
 		}
 		return true
 	}
-	return false
+	// Fields with unknown tags are to be ignored
+	return true
 }
 
 func readData(b []byte, p *int, e *binary.ByteOrder) []byte {
